@@ -15,9 +15,9 @@ GROUPS = {1: "SO3", 2: "SE2", 3: "SE3", 8: "R:3", 9: "B(SO3,R:3)", 20: "B(SE2,R:
 PLAN = {
     # cases per (group, degree): case c has N = random | K+1 | 30 | K+2 for c % 4 = 0..3; (t0, dt) cycle through all 12
     # combinations; difference profiles cycle generic | small | mixed (zeros, tiny, large) | near the injectivity radius
-    "quick": dict(gs=[1, 2, 3, 8, 9], Ks=[1, 2, 3, 4, 5, 6], cases=3, nrand=5, nlocal=1, maxn=9, chunk=200,
+    "quick": dict(gs=[1, 2, 3, 8, 9], Ks=[1, 2, 3, 4, 5, 6], cases=2, nrand=5, nlocal=1, maxn=9, chunk=300,
                   model_cfg="BSplineIndex_quick.cfg", variants=["ge", "tmax"]),
-    "thorough": dict(gs=[1, 2, 3, 8, 9, 20, 21], Ks=[1, 2, 3, 4, 5, 6], cases=48, nrand=40, nlocal=4, maxn=29, chunk=400, dense=1,
+    "thorough": dict(gs=[1, 2, 3, 8, 9, 20, 21], Ks=[1, 2, 3, 4, 5, 6], cases=6, nrand=30, nlocal=3, maxn=29, chunk=400, dense=1,
                      model_cfg="BSplineIndex.cfg", variants=["ge", "nolow", "noclamp", "tmax"]),
 }
 
@@ -164,9 +164,30 @@ def validate(oc, traces, chunk, workdir, timeout=3000):
                     oc.samples.append(smp)
 
 
+def missing_cells(cov, groups, Ks):
+    """cells that a tier is expected to visit (reported in quick, required in thorough)"""
+    miss = []
+    for g in groups:
+        for K in Ks:
+            for cell in ([f"eval|K{K}|{p}" for p in ("below", "above", "inside", "knot")]
+                         + [f"smooth|K{K}|knot", f"smooth|K{K}|endknot", f"local|K{K}|out", f"local|K{K}|edge", f"local|K{K}|in",
+                            f"equiv|K{K}|inside", f"equiv|K{K}|knot", f"const|K{K}|inside", f"const|K{K}|knot"]):
+                if cov.get(f"{g}|{cell}", 0) == 0:
+                    miss.append(f"{g}|{cell}")
+    gen = [k.split("|")[-1] for k in cov if "|spline|" in k and "|gen," in k]
+    for t0c in ("t0=0", "t0<0", "t0>=100"):
+        for dtc in ("dt<.2", "dt<.5", "dt<2", "dt>=2"):
+            if not any(f",{t0c},{dtc}," in x for x in gen):
+                miss.append(f"spline gen {t0c} {dtc}")
+    for nc in ("N=K+1", "N=30", "N.."):
+        if not any(x.endswith(nc) for x in gen):
+            miss.append(f"spline gen {nc}")
+    return miss
+
+
 def run_models(oc, cfg, variants, workdir):
     """design model: exhaustive run on the model that mirrors the code + seeded specification mutants that must be rejected"""
-    r = V.run_tlc("BSplineIndex", cfg, workdir, workers=1, timeout=3000)
+    r = V.run_tlc("BSplineIndex", cfg, workdir, workers=1, timeout=3000, extra=("-noGenerateSpecTE",))
     if r["rc"] != 0 or "No error has been found" not in r["out"]:
         inv = re.findall(r"Invariant (\w+) is violated", r["out"])
         if inv:
@@ -183,7 +204,7 @@ def run_models(oc, cfg, variants, workdir):
         p = os.path.join(workdir, f"BSplineIndex_mut_{v}.cfg")
         with open(p, "w") as fh:
             fh.write(base.replace('Variant = "code"', f'Variant = "{v}"'))
-        rm = V.run_tlc("BSplineIndex", p, workdir, workers=1, timeout=1200)
+        rm = V.run_tlc("BSplineIndex", p, workdir, workers=1, timeout=1200, extra=("-noGenerateSpecTE",))
         inv = re.findall(r"Invariant (\w+) is violated", rm["out"])
         if not inv:
             raise V.ToolFailure(f"seeded specification mutant '{v}' of BSplineIndex was not rejected (vacuous invariants?)\n{rm['out'][-800:]}")
@@ -232,7 +253,8 @@ def _check(oc, prop, tier, seed, replay, workdir):
             for K in cfg["Ks"]:
                 out = os.path.join(workdir, f"g{g}_K{K}.ndjson")
                 progp = os.path.join(workdir, f"g{g}_K{K}.prog")
-                args = ["--K", str(K), "--seed", str(seed), "--cases", str(cfg["cases"]), "--nrand", str(cfg["nrand"]),
+                # case numbers start at cases*K so that the sizes N = random | K+1 | 30 | K+2 rotate over the degrees
+                args = ["--K", str(K), "--seed", str(seed), "--first", str(cfg["cases"] * K), "--cases", str(cfg["cases"]), "--nrand", str(cfg["nrand"]),
                         "--nlocal", str(cfg["nlocal"]), "--maxn", str(cfg["maxn"]), "--dense", str(cfg.get("dense", 0)), "--dump", progp]
                 runs.append((exe, args, out, progp, g, K))
         with cf.ThreadPoolExecutor(V.NCPU) as ex:
@@ -261,6 +283,10 @@ def _check(oc, prop, tier, seed, replay, workdir):
                 raise V.ToolFailure(f"coverage: no '{n}' event was validated")
         if not any(".otherwindow" in k for k in oc.cov):
             oc.notes.append("no knot time needed the neighbouring window in this run")
+        missing = missing_cells(oc.cov, [GROUPS[g] for g in PLAN[tier]["gs"]], PLAN[tier]["Ks"])
+        oc.extra["empty_cells"] = missing
+        if missing and tier == "thorough":
+            raise V.ToolFailure(f"coverage: {len(missing)} required cell(s) empty in the thorough tier: {missing[:12]}")
     rule = ("one evaluation = one recorded call of BSpline::operator()(t, vel, acc) (or t_min/t_max at construction) validated by TLC against the exact "
             "reference curve / the relational clause; cells = group | event | degree | position of t relative to the knots, re-derived by the "
             "trace spec; states/transitions include the exhaustive run of the design model BSplineIndex")
